@@ -178,6 +178,27 @@ func contractParamNames(c *Contract) []string {
 
 // localByName resolves a source-level local variable at the current point
 func (fx *FnExec) localByName(name string) (Val, bool) {
+	if name == "rangeindex" && fx.curBlock != nil {
+		// the hidden index of the innermost enclosing range loop
+		var best *ssa.Phi
+		for h, li := range fx.loops {
+			if li.blocks[fx.curBlock] || h == fx.curBlock {
+				for _, in := range h.Instrs {
+					if p, ok := in.(*ssa.Phi); ok && p.Comment == "rangeindex" {
+						if best == nil || best.Block().Index < h.Index {
+							best = p
+						}
+					}
+				}
+			}
+		}
+		if best != nil {
+			if v, ok := fx.vals[best]; ok {
+				return v, true
+			}
+		}
+		return Val{}, false
+	}
 	// phi in the enclosing loop header(s) of the current block
 	if fx.curBlock != nil {
 		var best *ssa.Phi
